@@ -1,6 +1,11 @@
 """Merge /verif/findings/*.json into known_findings.json, skipping keys listed in FIXED (fixed by commits in /repo)."""
 import glob, json, subprocess, sys
 FIXED = {  # key -> (property, commit subject prefix)
+  "C33:set_length_range:nworld>1-writes-out-of-bounds": ("C33", "fix: set_length_range launches over the rows"),
+  "C33:_compute_cam_pos0:mixed-batch-rows": ("C33", "fix: camera/light reference kernels index each output"),
+  "C33:set_const_0:camlight-evaluated-in-tracking-mode": ("C33", "fix: set_const_0 evaluates cameras and lights in fixed mode"),
+  "C33:invweight0:body_simple-2-slider-bodies": ("C33", "fix: set_const invweight0 of slider-only bodies"),
+  "C33:_finalize_body_invweight0:zero-component-fallback": ("C33", "fix: body_invweight0 keeps a vanishing component"),
   "C05:make_data:default-njmax_nnz-omits-slide-hinge-limits": ("C05", "fix: default njmax_nnz counts limited slide"),
   "C22:dense-vs-sparse:default-njmax_nnz-drops-rows": ("C22", "fix: default njmax_nnz counts limited slide"),
   "C05:_efc_row:mixed-solref": ("C05", "fix: constraint rows follow MuJoCo for mixed solref"),
